@@ -1,8 +1,13 @@
 package props
 
 import (
+	"encoding/json"
 	"fmt"
+	"os"
+	"os/exec"
+	"path/filepath"
 	"reflect"
+	"strings"
 	"testing"
 
 	"github.com/atlassian/escalator/pkg/cloudprovider"
@@ -371,6 +376,96 @@ func C12Scenarios(tier string) []*h.Scenario {
 	}
 }
 
+// c12ProviderMapping: the cloud-provider configuration cmd/main.go derives for each group depends on
+// that group's options only. The build-tagged probe in /repo/cmd runs the real setupCloudProvider over
+// multi-group files (a launch-template group next to plain groups, every order); each group's derived
+// configuration must equal the harness's per-group restatement.
+func c12ProviderMapping(t *testing.T, tier string, shard, shards int, c *h.Collector) {
+	if shard != 0 {
+		return
+	}
+	lt := c16Baseline()
+	lt.set("name", "lt")
+	lt["aws"] = cfg{"lifecycle": "spot", "launch_template_id": "lt-123", "launch_template_version": "7", "fleet_instance_ready_timeout": "90s",
+		"instance_type_overrides": []string{"t2.large", "t3.large"}, "resource_tagging": true}
+	plain := cfg{}
+	for k, v := range c16Baseline() {
+		if k != "aws" {
+			plain[k] = v
+		}
+	}
+	plain["name"] = "plain"
+	other := c16Baseline()
+	other.set("name", "other")
+	other["aws"] = cfg{"lifecycle": "on-demand", "launch_template_id": "lt-999", "launch_template_version": "1", "instance_type_overrides": []string{"c5.large"}}
+	all := []cfg{lt, plain, other}
+	for _, order := range perms(len(all)) {
+		dir, err := os.MkdirTemp("", "verif-c12-map")
+		if err != nil {
+			c.R.HarnessError = err.Error()
+			return
+		}
+		var gs []any
+		var names []string
+		for _, i := range order {
+			gs = append(gs, all[i])
+			names = append(names, all[i]["name"].(string))
+		}
+		body, _ := json.Marshal(map[string]any{"node_groups": gs})
+		os.WriteFile(filepath.Join(dir, "map.cfg"), body, 0o644)
+		args := []string{"test", "-tags", "verif", "-vet=off", "-count=1", "-v", "-run", "^TestVerifStartupGate$"}
+		if ov := os.Getenv("VERIF_OVERLAY"); ov != "" {
+			args = append(args, "-overlay", ov)
+		}
+		args = append(args, "./cmd")
+		cmd := exec.Command(env("VERIF_GO", "go1.26.8"), args...)
+		cmd.Dir = "/repo"
+		cmd.Env = append(os.Environ(), "VERIF_GATE_DIR="+dir)
+		out, runErr := cmd.CombinedOutput()
+		os.RemoveAll(dir)
+		seen := false
+		for _, line := range strings.Split(string(out), "\n") {
+			if !strings.HasPrefix(line, "VERIF-MAP ") {
+				continue
+			}
+			var got []cloudprovider.NodeGroupConfig
+			if json.Unmarshal([]byte(strings.TrimPrefix(line, "VERIF-MAP ")), &got) != nil {
+				continue
+			}
+			seen = true
+			opts, derr := decode(string(body))
+			if derr != nil {
+				c.R.HarnessError = "c12 mapping file does not decode: " + derr.Error()
+				return
+			}
+			var specs []h.GroupSpec
+			for _, o := range opts {
+				specs = append(specs, h.GroupSpec{Opts: o})
+			}
+			want := h.ProviderConfigs(specs, 0)
+			for i := range want {
+				want[i].AWSConfig.FleetInstanceReadyTimeout = opts[i].AWS.FleetInstanceReadyTimeoutDuration()
+			}
+			c.R.Evaluations++
+			c.Nontrivial(fmt.Sprint("provider-mapping/", names))
+			for i := range want {
+				if i >= len(got) || !reflect.DeepEqual(got[i], want[i]) {
+					var g any
+					if i < len(got) {
+						g = got[i]
+					}
+					c.Report(h.Found{Violation: h.Violation{Prop: "C12", Sig: "C12/provider-configuration-depends-on-other-groups",
+						Msg: fmt.Sprintf("groups %v: setupCloudProvider derives %+v for group %s; from that group's own options it is %+v", names, g, names[i], want[i])}, Scenario: "c12.provider-mapping", Case: names})
+				}
+			}
+		}
+		if !seen {
+			c.R.HarnessError = fmt.Sprintf("start-up probe produced no mapping (err %v): %s", runErr, tailStr(string(out), 1200))
+			return
+		}
+	}
+}
+
 func init() {
 	register(&Check{
 		ID:    "C12",
@@ -378,6 +473,7 @@ func init() {
 		Rule: "deviation-bounded DFS over 6-scan histories of 2 and 3 node groups (one named default, every processing order) in which only group a is perturbed (pods, cordons, taints, and a failure of any call or lister made while a is processed); every other group's per-scan journal is compared with the unperturbed execution; " +
 			"non-trivial = scans in which another group acted and was compared; distinct = distinct perturbed histories' outcome traces (counted via slot/class keys of group a)",
 		Scenarios: C12Scenarios,
+		Grid:      c12ProviderMapping,
 		MonitorsFor: func(s *h.Scenario) []h.Monitor {
 			if s.Name == "c12.fleet-two" {
 				return []h.Monitor{Attribution{}, &FleetExitAttribution{}, &NearMiss{Seen: map[string]struct{}{}}}
